@@ -13,6 +13,7 @@ def run(ck):
     if extra:
         extra(ck, w)
     s1_sponge_twins(ck, w)
+    s2_varlen_alignment(ck, w)
 
 
 CHIP = '<midnight_circuits::hash::poseidon::poseidon_chip::PoseidonChip as midnight_circuits::instructions::sponge::SpongeInstructions<midnight_proofs::circuit::AssignedCell, midnight_proofs::circuit::AssignedCell>>::'
@@ -95,3 +96,23 @@ def s1_sponge_twins(ck, w):
         sa, sb = skeleton(a), skeleton(b)
         ck.record('C07.S1', f'{op}:skeleton', sa is not None and sa == sb, f'identical skeletons ({len(str(sa))} chars)',
                   f'Poseidon sponge `{op}`: in-circuit skeleton {sa} differs from the off-circuit skeleton {sb}', None)
+
+
+def s2_varlen_alignment(ck, w):
+    """variable-length hash gadgets refuse buffer sizes that are not a multiple of their block size"""
+    from ..core import walk
+    ck.rule('C07.S2', 'variable-length hash gadgets (…_varlen over an AssignedVector of MAX_LEN cells processed in blocks) assert that MAX_LEN is a multiple of the '
+                      'block size: the payload is right-aligned in the buffer and the gadget walks whole blocks from the left, so with a ragged MAX_LEN the blocks '
+                      'it hashes do not contain the payload (VarLenSha256 with M = 100 hashed filler only and accepted that digest).  Sibling rule: '
+                      'poseidon_varlen asserts MAX_LEN % RATE == 0.')
+    fs = [f for f in w.all_fns(['circuits']) if f['name'].endswith('_varlen') and '/hash/' in f['file'] and '::tests' not in f['_nid']]
+    ck.floor('C07.S2', 'variable-length hash entry points', len(fs), 2)
+    for f in fs:
+        ok = False
+        for n in walk(f['body']):
+            if any('assert' in m for m in (n.get('x') or [])):
+                if any(y.get('k') == 'bin' and y.get('op') == '%' for y in walk(n)):
+                    ok = True
+        ck.record('C07.S2', f'{f["_nid"]}:asserts-alignment', ok, 'asserts MAX_LEN % block == 0',
+                  f'{f["_nid"]} does not assert that the buffer size is a multiple of its block size: for other sizes it silently hashes the wrong cells',
+                  f'{f["file"]}:{f["line"]}')
